@@ -467,8 +467,9 @@ class AlignmentCollector:
             return GeneInfo.from_region(self.chr_id, current_region[0], current_region[1],
                                         self.params.delta, self.chr_record)
 
-        gene_list = list(self.genedb.region(seqid=self.chr_id, start=current_region[0],
-                                            end=current_region[1], featuretype="gene"))
+        # the region of the alignments is 0-based, gene coordinates are 1-based
+        gene_list = list(self.genedb.region(seqid=self.chr_id, start=current_region[0] + 1,
+                                            end=current_region[1] + 1, featuretype="gene"))
         if not gene_list:
             return GeneInfo.from_region(self.chr_id, current_region[0], current_region[1],
                                         self.params.delta, self.chr_record)
